@@ -71,6 +71,29 @@ def bound(ctx, prog):
             ctx.ok(rule, f.id, "%s derives from free_slots() %s" % (what, d), site=f.loc(t.get("sp")))
         else:
             ctx.violation(rule, f.id, what, "the %s is not derived from Outgoing::free_slots() only (leaves: %s)" % (what, d), site=f.loc(t.get("sp")))
+    # retained messages taken first are charged against the window before the log is read:
+    # the `publishes.len()` that is subtracted is read AFTER the retained messages were moved into `publishes`
+    lens = []
+    for rb, rt in reads:
+        for s_ in flatten_src(provenance(f, rt["args"][3])):
+            if s_.kind == "call" and s_.path.endswith("Vec::<T, A>::len"):
+                lens.append(s_)
+    exts = [(bb, t) for bb, t in f.calls() if re.search(r"Extend<T>>::extend$|Vec::<T, A>::(extend|append)$", callee_path(t)) and not f.is_cleanup(bb)]
+    charged = False
+    for s_ in lens:
+        recv = flatten_src(provenance(f, s_.term["args"][0]))
+        for bb, t in exts:
+            er = flatten_src(provenance(f, t["args"][0]))
+            same = any(a.kind == b_.kind == "call" and a.term is b_.term for a in recv for b_ in er)
+            fed = any(x.kind == "call" and x.path.endswith("DataLog::read_retained_messages") for x in flatten_src(provenance(f, t["args"][1], through_calls=[r"IntoIterator>::into_iter$", r"Iterator::map$"])))
+            if same and fed and dominates(f, bb, s_.bb):
+                charged = True
+    if lens and charged:
+        ctx.ok(rule, f.id, "the retained messages are in `publishes` before its len() is subtracted from the window", site=f.loc(lens[0].term.get("sp")))
+    else:
+        ctx.violation(rule, f.id, "retained messages not charged to the window",
+                      "the number subtracted from the free slots before the log read is not the length of `publishes` after the retained messages were added: retained + log messages together can exceed the window, and packet ids repeat inside it",
+                      site=f.loc(reads[0][1].get("sp")))
     # free_slots() == 0 → InflightFull before any read
     fbb, ft = fs_calls[0]
     okz = False
